@@ -709,12 +709,28 @@ pub fn gen_flood_session(seed: u64, index: u64, _c: &Corpus) -> Session {
         reqs.push(Request { w: 0, k: keys.len() - 1, mode: Mode::Catch });
     }
     let env = gen_env(&mut r, &_c.env_names);
+    // [round 12] ... and then the process is restarted over the same disk: whatever the flood left in files (a
+    // cache grown past its size limit and trimmed, a counter, a lock file) is what the second process starts
+    // from. It serves the small items, the first giants (what an on-disk table filled in arrival order holds
+    // at its front, where a trim to a byte length cuts) and the fresh ones again.
+    let n_keys = keys.len();
+    let mut again: Vec<Request> = Vec::new();
+    for k in (0..n_keys.min(6 + 48)).chain(n_keys.saturating_sub(6)..n_keys) {
+        again.push(Request { w: 0, k, mode: Mode::Catch });
+    }
+    let seg2 = Segment {
+        env: env.clone(),
+        sched: Schedule { keys: keys.clone(), workers: 1, requests: again, prealloc: vec![], stack_pad: 0, worker_stack_kb: 8192, dump_text: false },
+    };
     Session {
         index,
-        segments: vec![Segment {
-            env,
-            sched: Schedule { keys, workers: 1, requests: reqs, prealloc: vec![], stack_pad: 0, worker_stack_kb: 8192, dump_text: false },
-        }],
+        segments: vec![
+            Segment {
+                env,
+                sched: Schedule { keys, workers: 1, requests: reqs, prealloc: vec![], stack_pad: 0, worker_stack_kb: 8192, dump_text: false },
+            },
+            seg2,
+        ],
     }
 }
 
@@ -755,7 +771,164 @@ pub fn gen_sibling_session(seed: u64, index: u64, c: &Corpus) -> Session {
     }
 }
 
+/// First index of the *environment sweep* sessions (far above any index a batch counts up to).
+pub const ENVSWEEP_BASE: u64 = 1 << 40;
+pub const ENVSWEEP_CASES: usize = 26;
+/// wide items per sweep session: 26 sessions x 14 = 364 slots >= 36 (derive, shape) pairs x 10 sizes... one full walk takes 396 slots
+pub const ENVSWEEP_WIDE: usize = 14;
+
+/// An *environment sweep* session. The ordinary sessions draw every environment dimension independently, so a
+/// particular extreme value (an unlimited stack, a terminal, one particular host name ...) meets a particular
+/// kind of item only with the product of two small probabilities — under some seeds not at all within a quick
+/// batch (seeded change S100 was missed under VERIF_SEED=2 for exactly this reason). A sweep session forces
+/// ONE dimension to ONE value, chosen by the index (not by the PRNG), and serves a small workload that has a
+/// few fresh items of every family, harvested items of every derive and a few failing ones. Every batch of
+/// >= 96 sessions appends n/4 (>= ENVSWEEP_CASES) of them, so each value below is exercised on each run,
+/// whatever the seed. Everything else (the other dimensions, the items, the order) is drawn from the PRNG.
+pub fn gen_envsweep_session(seed: u64, index: u64, c: &Corpus) -> Session {
+    let j = (index - ENVSWEEP_BASE) as usize;
+    let (case, round) = (j % ENVSWEEP_CASES, j / ENVSWEEP_CASES);
+    let mut r = Rng::new(seed, index);
+    workload::SCALE.with(|s| s.set(1));
+    let mut keys: Vec<Key> = Vec::new();
+    for which in 0..workload::N_FAMILIES {
+        for _ in 0..3 {
+            keys.push(workload::family(&mut r, which));
+        }
+    }
+    workload::SCALE.with(|s| s.set(4));
+    keys.push(workload::family(&mut r, round % workload::N_FAMILIES));
+    workload::SCALE.with(|s| s.set(1));
+    // wide items of the derives no family covers: the slot walks through every (derive, size) combination
+    for i in 0..ENVSWEEP_WIDE {
+        keys.push(workload::wide(&mut r, j * ENVSWEEP_WIDE + i));
+    }
+    let mut by_derive: BTreeMap<&str, Vec<usize>> = BTreeMap::new();
+    for (i, k) in c.base.iter().enumerate() {
+        by_derive.entry(k.derive.as_str()).or_default().push(i);
+    }
+    let derive_names: Vec<&str> = by_derive.keys().copied().collect();
+    // every derive once per two rounds: an offset walks through the derive list
+    for n in 0..derive_names.len().div_ceil(2) {
+        let d = derive_names[(n * 2 + round % 2) % derive_names.len()];
+        keys.push(c.base[*r.pick(&by_derive[d])].clone());
+    }
+    let healthy = keys.len();
+    for _ in 0..4 {
+        keys.push(r.pick(&c.faults).clone());
+    }
+    for _ in 0..6 {
+        let base = r.below(healthy);
+        if let Some(b) = workload::breaker(&keys[base].clone(), &mut r) {
+            keys.push(b);
+        }
+    }
+    let mut reqs: Vec<Request> = Vec::new();
+    for k in 0..keys.len() {
+        for _ in 0..(if k < healthy { 2 } else { 1 }) {
+            reqs.push(Request { w: 0, k, mode: Mode::Catch });
+        }
+    }
+    r.shuffle(&mut reqs);
+    let mut env = gen_env(&mut r, &c.env_names);
+    let dir = env.cwd.clone().map(|d| format!("{d}/")).unwrap_or_default();
+    let put = |env: &mut Env, f: String, idx: usize| {
+        env.files.retain(|(x, _)| *x != f);
+        env.files.push((f, idx));
+    };
+    match case {
+        0 => env.rlimits = Some((1024, u64::MAX)),
+        1 => env.rlimits = Some((64, 8 << 20)),
+        2 => env.rlimits = Some((256, [16u64 << 20, 64 << 20, 1 << 30][round % 3])),
+        3 => env.tty = true,
+        4 => env.toolbin = Some(round % crate::envmodel::TOOL_BANNERS.len()),
+        5 => env.clock_step = Some(([3_000_000_000u64, 60_000_000, 1_000_000][round % 3], 7, [86_400_000_000_000u64, 5_000_000_000][round % 2])),
+        6 => env.cpus = Some((round % 16, 1)),
+        7 => env.host = Some(crate::envmodel::HOSTS[round % crate::envmodel::HOSTS.len()].to_string()),
+        8 => env.uid = Some([0u32, 65534, 1000][round % 3]),
+        9 => env.hostname = Some(["ci-runner-03.example.org", "localhost", "x", "build-7"][round % 4].to_string()),
+        10 => {
+            // the whole cargo table, values walked by the round
+            env.junk.retain(|(n, _)| !crate::envmodel::CARGO_VARS.iter().any(|(c, _)| c == n));
+            for (name, vals) in crate::envmodel::CARGO_VARS {
+                env.junk.push((name.to_string(), vals[round % vals.len()].to_string()));
+            }
+        }
+        11 => env.junk.retain(|(n, _)| n == "VERIF_PAD"), // a bare environment
+        12 => put(&mut env, format!("{dir}Cargo.toml"), round % 6),
+        13 => {
+            put(&mut env, "pkg/Cargo.toml".to_string(), round % 6);
+            env.manifest_dir = Some("pkg".to_string());
+        }
+        14 => {
+            for (rel, at_cwd, idx) in [("Cargo.lock", true, 6usize), ("rust-toolchain.toml", true, 7), (".cargo/config.toml", true, 8), (".cargo/config.toml", false, 8), (".cargo/credentials.toml", false, 5), (".rustup/settings.toml", false, 9), (".gitconfig", false, 5)] {
+                let f = format!("{}{rel}", if at_cwd { dir.clone() } else { String::new() });
+                put(&mut env, f, idx);
+            }
+        }
+        15 => {
+            env.args = ["--crate-name", "demo", "--edition=2021", "--crate-type", "bin", "--emit=dep-info,link", "-C", "opt-level=3", "-C", "debuginfo=2", "--cap-lints", "allow"].iter().map(|s| s.to_string()).collect();
+        }
+        16 => {
+            env.args = vec!["--crate-name".into(), "my_crate".into(), "--edition=2018".into(), "--test".into(), format!("--diagnostic-width={}", [40usize, 72, 200][round % 3]), format!("--color={}", ["always", "never"][round % 2]), "--error-format=json".into(), "--json=diagnostic-rendered-ansi".into()];
+        }
+        17 => {
+            env.fake_pid = Some([2u32, 7, 32768, 4_194_303][round % 4]);
+            env.clock_base = Some([1u64, 1_000_000_000, 1_893_456_000, 4_102_444_800][round % 4]);
+        }
+        18 => {
+            // what the code was seen asking for: every candidate value in turn
+            for (name, cands) in &c.env_names {
+                env.junk.retain(|(n, _)| n != name);
+                let all: Vec<&str> = cands.iter().map(|s| s.as_str()).chain(crate::envmodel::GENERIC_VALUES.iter().copied()).collect();
+                env.junk.push((name.clone(), all[round % all.len()].to_string()));
+            }
+        }
+        19 => {
+            for (name, _) in &c.env_names {
+                env.junk.retain(|(n, _)| n != name);
+            }
+        }
+        20 => env.junk.insert(0, ("LEGACY_LATIN1_LABEL".to_string(), format!("caf\u{e9ff}{}", round % 10))),
+        21 => {
+            // (files planned for the old working directory stay where they are: a manifest the process no longer finds)
+            env.cwd = Some(["x y", "deep/er/still", "w"][round % 3].to_string());
+        }
+        22 => {
+            env.cwd = None;
+            env.files.clear();
+            env.manifest_dir = None;
+        }
+        23 => {
+            env.tty = true;
+            env.junk.retain(|(n, _)| n != "TERM" && n != "NO_COLOR");
+            env.junk.push(("TERM".to_string(), ["dumb", "xterm-256color"][round % 2].to_string()));
+            if round % 2 == 0 {
+                env.junk.push(("NO_COLOR".to_string(), "1".to_string()));
+            }
+        }
+        24 => env.entropy_seed = 0x9e37_79b9_7f4a_7c15u64.wrapping_mul(round as u64 + 1),
+        _ => {
+            // locale and CI conventions (not cargo's): LANG / LC_ALL / CI / SOURCE_DATE_EPOCH / RUSTC_WRAPPER
+            for (n, v) in [("LANG", ["C", "de_DE.UTF-8", "tr_TR.UTF-8"][round % 3]), ("LC_ALL", ["C", "en_US.UTF-8", "POSIX"][round % 3]), ("CI", ["true", "1"][round % 2]), ("SOURCE_DATE_EPOCH", ["0", "1700000000"][round % 2]), ("RUSTC_WRAPPER", ["sccache", "/usr/bin/env"][round % 2]), ("RUSTC_BOOTSTRAP", ["1", "0"][round % 2]), ("USER", ["root", "builder"][round % 2]), ("TZ", ["UTC", "Asia/Kolkata"][round % 2])] {
+                env.junk.retain(|(x, _)| x != n);
+                env.junk.push((n.to_string(), v.to_string()));
+            }
+        }
+    }
+    Session {
+        index,
+        segments: vec![Segment {
+            env,
+            sched: Schedule { keys, workers: 1, requests: reqs, prealloc: vec![], stack_pad: 0, worker_stack_kb: 8192, dump_text: false },
+        }],
+    }
+}
+
 pub fn gen_session(seed: u64, index: u64, c: &Corpus) -> Session {
+    if index >= ENVSWEEP_BASE {
+        return gen_envsweep_session(seed, index, c);
+    }
     let mut r = Rng::new(seed, index);
     // swarm: sizes and mixes are redrawn per session
     // 1 session in 12 is *hot*: thousands of requests on one to three derives (counters, caches, thresholds);
@@ -1685,7 +1858,11 @@ pub struct BatchResult {
     pub refs: usize,
 }
 
-pub fn run_batch(ctx: Arc<Ctx>, corpus: Arc<Corpus>, refs: Arc<RefCache>, seed: u64, start: u64, n: u64, jobs: usize, selfcheck_every: u64) -> BatchResult {
+pub fn run_batch(ctx: Arc<Ctx>, corpus: Arc<Corpus>, refs: Arc<RefCache>, seed: u64, start: u64, n: u64, jobs: usize, selfcheck_every: u64, force_sweep: bool) -> BatchResult {
+    // the environment sweep rides along with every batch that is large enough to be a check (not the 24-session
+    // discovery pre-pass, which gets one round of them so that what the wide items make the code read is discovered): n/4 sessions, at least one per forced value
+    let sweep = if n >= 96 { (n / 4).max(ENVSWEEP_CASES as u64) } else if force_sweep { ENVSWEEP_CASES as u64 } else { 0 };
+    let sweep_from = start / 4;
     let next = Arc::new(Mutex::new(start));
     let mut handles = Vec::new();
     for _ in 0..jobs {
@@ -1695,12 +1872,12 @@ pub fn run_batch(ctx: Arc<Ctx>, corpus: Arc<Corpus>, refs: Arc<RefCache>, seed: 
             loop {
                 let i = {
                     let mut g = next.lock().unwrap();
-                    if *g >= start + n {
+                    if *g >= start + n + sweep {
                         break;
                     }
                     let i = *g;
                     *g += 1;
-                    i
+                    if i >= start + n { ENVSWEEP_BASE + sweep_from + (i - start - n) } else { i }
                 };
                 let s = gen_session(seed, i, &corpus);
                 // (flood sessions are the costliest by far: one in five of them is run twice)
